@@ -188,7 +188,7 @@ class Sym(paths.Domain):
             return simplify(self.expr(e, store), facts)
         if self.substitute:
             used = {x.id for x in ast.walk(e) if isinstance(x, ast.Name)}
-            env = {k: v for k, v in store.items() if k in used and '@' not in v and k not in self.no_subst}
+            env = {k: v for k, v in store.items() if k in used and '§' not in v and k not in self.no_subst}
             if env:
                 return _subst_text(norm(e), tuple(sorted(env.items())))
         return norm(e)
@@ -213,12 +213,16 @@ class Sym(paths.Domain):
                     vt = norm(ast.parse(vt, mode='eval').body) if vt else None
                 except SyntaxError:
                     vt = None
-                vals = {t: vt or f'{t}@{line}'} if t else {}
+                vals = {t: vt or f'{t}§{line}'} if t else {}
             elif len(tg) == 1:
                 t = dotted(tg[0])
                 vals = {t: self.expr(val, sd, facts)} if t and val is not None else {}
+            elif isinstance(node, ast.Assign) and len(node.targets) > 1 and not any(isinstance(t, (ast.Tuple, ast.List)) for t in node.targets):
+                # chained assignment a = b[k] = value
+                vt = self.expr(val, sd, facts)
+                vals = {dotted(t): vt for t in tg if dotted(t)}
             else:
-                vals = {dotted(t): f'{dotted(t)}@{line}' for t in tg if dotted(t)}
+                vals = {dotted(t): f'{dotted(t)}§{line}' for t in tg if dotted(t)}
             assigned = {dotted(t) for t in tg if dotted(t)}
             # subscript stores mutate their base
             for t in tg:
@@ -267,7 +271,7 @@ class Sym(paths.Domain):
         a = atom
         if self.substitute:
             used = {x.id for x in ast.walk(atom) if isinstance(x, ast.Name)}
-            env = {k: x for k, x in sd.items() if k in used and '@' not in x and k not in self.no_subst}
+            env = {k: x for k, x in sd.items() if k in used and '§' not in x and k not in self.no_subst}
             if env:
                 a = ast.parse(_subst_text(norm(atom), tuple(sorted(env.items()))), mode='eval').body
         t, tr = canon(a, truth)
